@@ -137,8 +137,10 @@ def gen_names(rng, n: int, v2_flags: list[bool] | None = None) -> list[str]:
             stem = names[rng.randrange(len(names))].split(".")[0] + "." + rng.choice(["early", "fix", "a", "zz", "0"])
         elif r < 0.35:
             stem = stem + rng.choice(["-x", ".local", "-1"])
+        if rng.random() < 0.04:
+            stem = "." + stem  # a hidden overlay (".site.json") is still a JSON file of the directory
         is_v2 = bool(v2_flags and v2_flags[len(names)])
-        if stem.endswith("v2") or stem.startswith("."):
+        if stem.endswith("v2") or stem in (".", ".."):
             continue  # a non-v2 file whose stem ends in "v2" would be ambiguous; not generated
         name = stem + (".v2.json" if is_v2 else ".json")
         if name not in names:
